@@ -104,6 +104,8 @@ def execute(run, cases, tag="b0"):
             continue
         if v != "accepted":
             run.count("rustc-rejected")
+            if c.get("delivery") == "derive":
+                run.count("derive-delivery-rejected (not this property's business: C02 / C18)")
             if c["corpus"] != "clean":
                 r = run.violation(c, "rustc %s: %s" % (v.get("code"), v.get("message")))
                 run.witness_result(c["corpus"].split(":")[1], True)
